@@ -16,11 +16,11 @@ def jobs(tier):
         for n in range(0, nfree + 1):
             add('free%d' % n, [n, n + 1, 0], 'every literal body of %d bytes, all contents' % n, nproc=(1 if n <= 6 else 16))
         # one backslash anywhere across two AVX2 blocks / four SSE blocks
-        for n in ([16, 32, 33, 64] if q else list(range(12, 71))):
-            add('bs1.n%d' % n, [n, 1, 0], 'every literal body of %d bytes with at most one backslash' % n, nproc=2)
+        for n in ([12] if q else list(range(12, 71))):
+            add('bs1.n%d' % n, [n, 1, 0], 'every literal body of %d bytes with at most one backslash (position and all byte values symbolic)' % n, nproc=16)
         # two backslashes: surrogate pairs and back-to-back escapes
-        for n in ([12] if q else list(range(12, 25))):
-            add('bs2.n%d' % n, [n, 2, 0], 'every literal body of %d bytes with at most two backslashes' % n, nproc=4)
+        for n in ([] if q else list(range(12, 25))):
+            add('bs2.n%d' % n, [n, 2, 0], 'every literal body of %d bytes with at most two backslashes (positions and all byte values symbolic)' % n, nproc=16)
         # long plain prefix then an unrestricted tail of 13 bytes (covers \\uD8xx\\uDCxx crossing a block edge)
         # long plain prefix then an unrestricted tail (a \\uD8xx\\uDCxx pair needs 12 bytes; 9 covers one \\uXXXX plus neighbours across the block edge)
         for k in ([] if q else [14, 15, 16, 20, 28, 29, 30, 31, 32, 46, 47, 48, 52]):
